@@ -28,6 +28,46 @@ pub const ALPHABET: &[&str] = &[
     "quit",
 ];
 
+/// Lines the engine cannot understand (or need not act on): the other command words of the UCI
+/// protocol bare and with arguments, wrong case, a tab-indented command (still a command after
+/// trimming), a line that is not valid UTF-8 (written `\\xFC` here, sent as the byte 0xFC), a very
+/// long line. Indexed after ALPHABET (symbol i + ALPHABET.len()).
+pub const UNKNOWN: &[&str] = &[
+    "debug",
+    "debug on",
+    "debug off",
+    "register",
+    "register later",
+    "ponderhit",
+    "setoption",
+    "position",
+    "ISREADY",
+    "\t",
+    "\tisready",
+    "setoption name UCI_Opponent value none none human J\\xFCrgen",
+    "\\xFC\\xFF",
+    "LONGLINE",
+];
+
+pub fn sym(i: usize) -> &'static str {
+    if i < ALPHABET.len() {
+        ALPHABET[i]
+    } else {
+        UNKNOWN[i - ALPHABET.len()]
+    }
+}
+
+static LONG: std::sync::OnceLock<String> = std::sync::OnceLock::new();
+
+/// The text of a line as the reference sees it (LONGLINE expanded)
+fn expand(l: &str) -> &str {
+    if l == "LONGLINE" {
+        LONG.get_or_init(|| "x".repeat(20_000) + " y z")
+    } else {
+        l
+    }
+}
+
 pub const HORIZON_S: u64 = 6;
 
 /// Expected output grammar for one input, checked by consuming the engine's stdout in order.
@@ -110,11 +150,31 @@ pub fn judge(lines: &[&str], r: &RunResult) -> Result<(), String> {
 }
 
 pub fn build_input(lines: &[&str], final_newline: bool) -> Vec<u8> {
-    let mut s = lines.join("\n");
-    if final_newline && !lines.is_empty() {
-        s.push('\n');
+    let mut out: Vec<u8> = Vec::new();
+    for (i, l) in lines.iter().enumerate() {
+        if i > 0 {
+            out.push(b'\n');
+        }
+        // `\xHH` in a symbol stands for the raw byte
+        let t = expand(l);
+        let b = t.as_bytes();
+        let mut j = 0;
+        while j < b.len() {
+            if b[j] == b'\\' && j + 3 < b.len() && b[j + 1] == b'x' {
+                if let Ok(v) = u8::from_str_radix(&t[j + 2..j + 4], 16) {
+                    out.push(v);
+                    j += 4;
+                    continue;
+                }
+            }
+            out.push(b[j]);
+            j += 1;
+        }
     }
-    s.into_bytes()
+    if final_newline && !lines.is_empty() {
+        out.push(b'\n');
+    }
+    out
 }
 
 fn escape(lines: &[&str]) -> String {
@@ -189,6 +249,16 @@ pub fn run(tier: &str, seed: u64, out: &str, engine_hooks: &str, engine_plain: &
             (engine_hooks, "hooks on", &full, 3, vec![true, false]),
         ]
     };
+    // unknown-line sweep: every unknown line together with the commands that must still be answered
+    let mut ext: Vec<usize> = (ALPHABET.len()..ALPHABET.len() + UNKNOWN.len()).collect();
+    for (i, a) in ALPHABET.iter().enumerate() {
+        if matches!(*a, "uci" | "isready" | "go depth 1" | "quit") {
+            ext.push(i);
+        }
+    }
+    let mut plan = plan;
+    plan.push((engine_plain, "hooks off", &ext, if thorough { 4 } else { 3 }, vec![true]));
+    plan.push((engine_plain, "hooks off", &ext, 2, vec![false]));
     let mut samples = Vec::new();
     for (exe, label, alpha, l, variants) in plan {
         if rep.saturated() {
@@ -200,7 +270,7 @@ pub fn run(tier: &str, seed: u64, out: &str, engine_hooks: &str, engine_plain: &
             if rep.saturated() {
                 return None;
             }
-            let lines: Vec<&str> = s.iter().map(|i| ALPHABET[*i]).collect();
+            let lines: Vec<&str> = s.iter().map(|i| sym(*i)).collect();
             runs.fetch_add(1, Ordering::Relaxed);
             if lines.iter().any(|l| l.trim() == "quit") {
                 with_quit.fetch_add(1, Ordering::Relaxed);
@@ -213,12 +283,12 @@ pub fn run(tier: &str, seed: u64, out: &str, engine_hooks: &str, engine_plain: &
         let ok = res.iter().filter(|r| **r == Some(true)).count();
         eprintln!("[C16] {} length <= {} over {} symbols, newline variants {:?}: {} runs, {} as expected ({:.1}s)", label, l, alpha.len(), variants, jobs.len(), ok, rep.elapsed());
         if let Some((s, nl)) = jobs.iter().rev().find(|(s, _)| s.len() == l && s.contains(&10) && s.contains(&0)) {
-            samples.push(J::obj().set("binary", label).set("input", escape(&s.iter().map(|i| ALPHABET[*i]).collect::<Vec<_>>())).set("final_newline", *nl));
+            samples.push(J::obj().set("binary", label).set("input", escape(&s.iter().map(|i| sym(*i)).collect::<Vec<_>>())).set("final_newline", *nl));
         }
         parts.push(
             J::obj()
                 .set("binary", label)
-                .set("alphabet", alpha.iter().map(|i| ALPHABET[*i].replace('\r', "\\r")).collect::<Vec<_>>())
+                .set("alphabet", alpha.iter().map(|i| sym(*i).replace('\r', "\\r")).collect::<Vec<_>>())
                 .set("max_lines", l)
                 .set("final_newline_variants", variants.iter().map(|v| if *v { "with" } else { "without" }).collect::<Vec<_>>())
                 .set("runs", jobs.len())
@@ -234,6 +304,7 @@ pub fn run(tier: &str, seed: u64, out: &str, engine_hooks: &str, engine_plain: &
         .set("distinct_nontrivial", n)
         .set("rule", "a case = one complete input stream (sequence of lines over the alphabet, with or without a final newline) given to a fresh engine process, then end of input; all cases are distinct")
         .set("alphabet", ALPHABET.iter().map(|a| a.replace('\r', "\\r")).collect::<Vec<_>>())
+        .set("unknown_lines", UNKNOWN.iter().map(|a| a.to_string()).collect::<Vec<_>>())
         .set("runs_containing_quit", with_quit.load(Ordering::Relaxed))
         .set("runs_containing_go", with_go.load(Ordering::Relaxed))
         .set("termination_horizon_s", HORIZON_S)
